@@ -7,6 +7,8 @@ package main
 import (
 	"fmt"
 	"os"
+	"os/exec"
+	"path/filepath"
 
 	"verif/harness/internal/core"
 )
@@ -50,4 +52,17 @@ func main() {
 	}()
 	fn(c, replay)
 	c.Finish()
+}
+
+// driverCmd runs the library driver in an empty directory of its own below the check's work
+// directory, with a private HOME and a ceiling, so that nothing it does through git can reach a
+// repository or configuration outside (the harness's own checkout lies above the work directory).
+func driverCmd(c *core.Ctx, drv string, args ...string) *exec.Cmd {
+	dir := filepath.Join(c.Work, "drvcwd")
+	os.MkdirAll(filepath.Join(dir, "home"), 0o755)
+	cmd := exec.Command(drv, args...)
+	cmd.Dir = dir
+	cmd.Env = append(os.Environ(), "HOME="+filepath.Join(dir, "home"), "XDG_CONFIG_HOME="+filepath.Join(dir, "home", ".config"), "GIT_CONFIG_NOSYSTEM=1",
+		"GIT_CEILING_DIRECTORIES="+dir+":"+c.Work+":"+filepath.Dir(c.Work)+":"+filepath.Dir(filepath.Dir(c.Work)))
+	return cmd
 }
